@@ -1,0 +1,58 @@
+//go:build verif
+
+package message
+
+// Contracts for the deductive checks in /verif (comment-only; no code).
+// Property C10: announce messages survive encoding, and decoding is total.
+
+// Decoder, for arbitrary input: every index is in range, every allocation is
+// bounded by cbor-gen's caps (8192 array entries, 2 MiB byte strings), the
+// header count is 3 or 4 and the original-peer field is read iff it is 4.
+//@ func (*Message).UnmarshalCBOR
+//@   property C10
+//@   requires m != nil && r != nil
+//@   ghost n0 := 0
+//@   at call CborReadHeaderBuf#1: after ghost n0 := result1
+//@   at make#2: allocbound cap <= 8192
+//@   at make#3: allocbound cap <= 2097152
+//@   at make#4: allocbound cap <= 2097152
+//@   loop 1: invariant 0 <= i && extra <= 8192 && (extra > 0 ==> len(m.Addrs) == extra) && (n0 == 3 || n0 == 4) && (hasOrigPeer <==> n0 == 4)
+//@   loop 1: decreases extra - i
+//@   ensures-local result == nil ==> (n0 == 3 || n0 == 4)
+//@   ensures-local result == nil ==> (n0 == 4 ==> count("call:ReadString") == 1) && (n0 == 3 ==> count("call:ReadString") == 0)
+//@   ensures-local result == nil ==> count("call:ReadCid") == 1
+
+// Encoder: header 132 and the text field iff OrigPeer is set, else 131; every
+// field is checked against its cap before it is written.
+//@ func (*Message).MarshalCBOR
+//@   property C10
+//@   requires w != nil
+//@   at call Write#2: assert len(arg1) == 1 && arg1[0] == ite(str(m.OrigPeer) == str(""), 131, 132)
+//@   at call WriteMajorTypeHeaderBuf#1: assert len(m.Addrs) <= 8192 && arg3 == len(m.Addrs)
+//@   at call WriteMajorTypeHeaderBuf#2: assert arg3 <= 2097152
+//@   at call WriteMajorTypeHeaderBuf#3: assert len(m.ExtraData) <= 2097152 && arg3 == len(m.ExtraData)
+//@   at call WriteMajorTypeHeaderBuf#4: assert len(m.OrigPeer) <= 8192 && arg3 == len(m.OrigPeer)
+//@   ensures-local result == nil && m != nil ==> (str(m.OrigPeer) != str("") <==> count("call:WriteString") == 1)
+//@   ensures-local result == nil && m != nil ==> count("call:WriteCidBuf") == 1
+
+//@ func (*Message).SetAddrs
+//@   property C10
+//@   requires m != nil
+//@   ensures len(m.Addrs) == len(addrs)
+//@   loop 1: invariant len(m.Addrs) == len(addrs) && rangeindex < len(addrs)
+
+// Addresses with unknown protocols are skipped, any other error fails the
+// message, everything else is kept in order.
+//@ func (*Message).GetAddrs
+//@   property C10
+//@   requires m != nil
+//@   loop 1: invariant len(addrs) <= rangeindex + 1 && rangeindex < len(m.Addrs) && cap(addrs) >= len(m.Addrs) && len(addrs) <= cap(addrs)
+//@   loop 1: iteration ghost n0 := len(addrs)
+//@   loop 1: iteration ghost failed := false
+//@   loop 1: iteration ghost unknown := false
+//@   at call NewMultiaddrBytes#1: after ghost failed := result1 != nil
+//@   at call Contains#1: after ghost unknown := result
+//@   at call NewMultiaddrBytes#1: assert arg0 == m.Addrs[rangeindex]
+//@   loop 1: iteration ensures (!failed && len(addrs) == n0 + 1) || (failed && unknown && len(addrs) == n0)
+//@   ensures result1 == nil ==> len(result0) <= len(m.Addrs)
+//@   ensures result1 != nil ==> result0 == nil
